@@ -69,6 +69,18 @@ fn alternatives(c: &Creds) -> Vec<Creds> {
     // "cleans" one of the parts makes the cleaned and the original credentials collide
     let clean = |x: &str| -> Vec<String> {
         let mut o = vec![x.trim().to_string(), x.trim_matches('"').to_string(), x.trim_matches('\'').to_string(), x.to_lowercase(), x.to_uppercase(), x.trim_end_matches('.').to_string(), x.replace(' ', ""), format!("\"{x}\""), format!(" {x}"), format!("{x}\n"), x.replace('\u{e9}', "e")];
+        // Unicode near-misses (string-preparation profiles map or fold these): spaces of other kinds,
+        // composed vs decomposed characters, width variants, a soft hyphen / zero-width joiner inside
+        for (a, b) in [(" ", "\u{a0}"), ("\u{a0}", " "), (" ", "\u{3000}"), ("\u{3000}", " "), ("\u{2003}", " "), ("\u{e9}", "e\u{301}"), ("e\u{301}", "\u{e9}"), ("\u{e4}", "a\u{308}"), ("a", "\u{ff41}"), ("-", "\u{2010}"), ("s", "\u{17f}")] {
+            if x.contains(a) {
+                o.push(x.replace(a, b));
+            }
+        }
+        if !x.is_empty() {
+            let mid = x.char_indices().nth(x.chars().count() / 2).map(|(i, _)| i).unwrap_or(0);
+            o.push(format!("{}\u{ad}{}", &x[..mid], &x[mid..]));
+            o.push(format!("{}\u{200d}{}", &x[..mid], &x[mid..]));
+        }
         o.retain(|y| y != x);
         o
     };
@@ -230,7 +242,7 @@ pub fn run(ctx: &Ctx) -> Report {
         wire::append_mi256(&mut b, b"some other key", 32);
         ref_sealed.push((b, c.clone(), "reference MI(correct) then MI256(wrong key)".into()));
     }
-    // (2b) decorated credentials (quotes, blanks, trailing dot, mixed case, non-ASCII in each part) with their cleaned forms as alternative keys; key-length sweep: short-term passwords of every length 0..=140 (around the digest sizes
+    // (2b) decorated credentials (quotes, blanks, trailing dot, mixed case, non-ASCII, other kinds of spaces, composed / decomposed and width variants in each part) with their cleaned, folded and re-spelled forms as alternative keys; key-length sweep: short-term passwords of every length 0..=140 (around the digest sizes
     // and the 64-byte HMAC block) and long-term credentials with long parts, sealed by the real
     // builder and by the reference serialiser
     let mut sweep_creds: Vec<Creds> = Vec::new();
@@ -244,7 +256,11 @@ pub fn run(ctx: &Ctx) -> Report {
         sweep_creds.push(Creds::Long { user: "u".into(), realm: "r".into(), pass: part(4) });
     }
     // decorated parts: quotes, surrounding blanks, trailing dot, mixed case, non-ASCII
-    for d in ["\"quoted\"", "'single'", " padded ", "Trailing.", "MiXeD", "caf\u{e9}", "a b", "tab\t", "\"", "\"\""] {
+    for d in ["\"quoted\"", "'single'", " padded ", "Trailing.", "MiXeD", "caf\u{e9}", "a b", "tab\t", "\"", "\"\"", "no\u{a0}break", "ideo\u{3000}graphic", "em\u{2003}space", "cafe\u{301}", "\u{ff41}bc", "soft\u{ad}hyphen", "stra\u{df}e", "\u{17f}harp",
+        // texts that look like an already-derived key or an encoded secret (a "convenience" that takes
+        // them literally changes the key)
+        "0x000102030405060708090a0b0c0d0e0f", "0X000102030405060708090A0B0C0D0E0F", "000102030405060708090a0b0c0d0e0f", "0x000102030405060708090a0b0c0d0e0f101112131415161718191a1b1c1d1e1f",
+        "md5:000102030405060708090a0b0c0d0e0f", "AAECAwQFBgcICQoLDA0ODw==", "base64:AAECAwQFBgcICQoLDA0ODw==", "{MD5}AAECAwQFBgcICQoLDA0ODw==", "$1$salt$hash", "%70%61%73%73", "pass\\x00word", "0x", "0"] {
         sweep_creds.push(Creds::Short(d.to_string()));
         sweep_creds.push(Creds::Long { user: d.to_string(), realm: "realm".into(), pass: "pass".into() });
         sweep_creds.push(Creds::Long { user: "user".into(), realm: d.to_string(), pass: "pass".into() });
